@@ -182,6 +182,13 @@ pub fn run(rep: &Report, models: &[ModelDef], o: &Opts) {
         let mut cfgs = low.clone();
         cfgs.extend(top.iter().cloned());
         cfgs.retain(|c| c.applicable(d.kind, d.ci));
+        // the bulk universes of the thorough tier (U2: 8 626 lists, Uci: 8 372) are stepped
+        // with the 15 table-level representations and the top-level ones; the
+        // builder-path representations (own builders, independent depths,
+        // plain constructors) are exercised on every other universe
+        if d.name.starts_with("U2") || (rep.thorough() && d.name.starts_with("Uci#")) {
+            cfgs.retain(|c| !matches!(c.rep, aut::Rep::CB { .. } | aut::Rep::DB { .. } | aut::Rep::CX { .. } | aut::Rep::New { .. }));
+        }
         if let Err((c, e)) = ctx.build(&cfgs) {
             rep.violation(Violation {
                 property: rep.property.clone(),
